@@ -48,11 +48,17 @@ def allowed(text, ua, path):
         return True
     if path == '/robots.txt':
         return True
+    # RFC 9309 2.2.2: paths are compared octet by octet after percent-decoding (the rule may
+    # be written in raw UTF-8 or percent-encoded; '/' stays encoded)
+    from urllib.parse import unquote
+    def norm(p):
+        return unquote(p.replace('%2F', '%252F').replace('%2f', '%252f'), 'utf-8', 'replace')
+    npath = norm(path)
     for allow, prefix in rules:
         if prefix == '':
             if not allow:
                 return True      # "Disallow:" (empty) allows everything
             continue
-        if path.startswith(prefix):
+        if npath.startswith(norm(prefix)):
             return allow
     return True
